@@ -25,8 +25,8 @@ pub fn run(tier: Tier, seed: u64) -> i32 {
                 return;
             }
         };
-        let model = reference(seed, n, &accepted_ops(&out.calls, n, h));
-        let added: Vec<usize> = (0..n).collect();
+        let added: Vec<usize> = accepted_tracks(&out.calls, n);
+        let model = reference(seed, added.len(), &accepted_ops(&out.calls, n, h));
         l.validated += 1;
         match check_muxer_output(&out.bytes, &model, &fam.movie, &added) {
             None => {
@@ -46,6 +46,42 @@ pub fn run(tier: Tier, seed: u64) -> i32 {
             }
         }
     });
+    // the configuration grid (brands, kinds, languages, every AAC object type, parameter-set lengths) under the same oracle
+    let grid = config_grid();
+    let ngrid = grid.len();
+    let gl = {
+        use rayon::prelude::*;
+        grid.par_iter()
+            .map(|m| {
+                let mut l = Local::default();
+                for h in grid_histories(m) {
+                    l.evaluations += 1;
+                    let n = m.tracks.len();
+                    let case = || json!({"family": "config_grid", "config": m.to_json(), "history": hist_json(&h), "seed": seed});
+                    match mux(seed, m, &h) {
+                        Err(e) => l.violations.push(Violation::new("C02", "muxer_call_panicked", case()).obs(json!(e))),
+                        Ok(out) => {
+                            let added = accepted_tracks(&out.calls, n);
+                            let model = reference(seed, added.len(), &accepted_ops(&out.calls, n, &h));
+                            match check_muxer_output(&out.bytes, &model, m, &added) {
+                                None => l.nontrivial += 1,
+                                Some((clause, detail)) => l.violations.push(Violation::new("C02", &clause, case()).obs(detail)),
+                            }
+                        }
+                    }
+                }
+                l
+            })
+            .reduce(Local::default, |mut a, b| {
+                a.evaluations += b.evaluations;
+                a.nontrivial += b.nontrivial;
+                a.violations.merge(b.violations);
+                a
+            })
+    };
+    ev.set("config_grid", json!({"configs": ngrid, "cases": gl.evaluations, "valid": gl.nontrivial, "what": "mux::config_grid x 2-3 histories, each output validated by the independent parser"}));
+    let mut gl = gl;
+    std::mem::take(&mut gl.violations).drain_into(&rep);
     standard_evidence(
         &mut ev,
         &s,
